@@ -37,7 +37,9 @@ static int all_zero(a_real const *p, size_t n)
     return 1;
 }
 
-static uint64_t vf_ncases(int tier) { return tier ? 20000 : 800; }
+static uint64_t vf_nbase(int tier) { return tier ? 20000 : 800; }
+/* the last tenth: exact cancellation class (cancel_case) */
+static uint64_t vf_ncases(int tier) { return vf_nbase(tier) + vf_nbase(tier) / 10; }
 
 static void tf_case(uint64_t c, vf_rng *r)
 {
@@ -125,6 +127,245 @@ done:
     free(num); free(den); free(in); free(out);
 }
 
+/* ---------------------------------------------------------------- exact cancellation class (see h_filter.c for the full argument)
+   Integer coefficients in -3..3, integer inputs times a common 2^e.  A step is accepted only if the positive terms sum to
+   P <= 2^p and the negative ones to |N| <= 2^p (p = A_REAL_MANT_DIG: 24 float, 64 x87 long double; evaluated in __int128 on
+   the integer model).  Every partial sum of every summation order is a subset sum of the terms (or its negative), i.e. an
+   integer of magnitude <= 2^p, i.e. exactly representable in the working type (and in any wider one), products included;
+   2^e is restricted so that the grid unit 2^e is normal (>= A_REAL_MIN: nothing is ever subnormal) and 2^(e+p+3) finite.  Hence every correct implementation returns the
+   model's value exactly.  The input of the cancelling step is solved so that the output is d = +-1..8 grid units while
+   max(P,|N|) lies in (2^(p-1), 2^p]:  d = 1 gives |y| < sum|terms| * eps/2 (counted, required), a deviation there is below
+   every (n+2)*eps*sum|terms| tolerance of the one-step oracle above. */
+typedef __int128 i128;
+#define CX_P A_REAL_MANT_DIG
+#define CX_MAXL 12u
+typedef struct
+{
+    unsigned nn, nd, L, kc; /* orders, history length, first solved (cancelling) step */
+    int num[4], den[3];
+    i128 x[CX_MAXL], y[CX_MAXL], P[CX_MAXL], N[CX_MAXL]; /* integer model; P/N = sum of the positive / negative terms of step j */
+} cx_t;
+
+static inline i128 cx_abs(i128 v) { return v < 0 ? -v : v; }
+static void cx_terms(cx_t const *c, unsigned j, unsigned i0, i128 *P, i128 *N)
+{
+    i128 p = 0, n = 0, t;
+    unsigned i;
+    for (i = i0; i < c->nn; ++i)
+    {
+        if (j >= i)
+        {
+            t = (i128)c->num[i] * c->x[j - i];
+            if (t > 0) { p += t; }
+            else { n += t; }
+        }
+    }
+    for (i = 0; i < c->nd; ++i)
+    {
+        if (j >= 1 + i)
+        {
+            t = -((i128)c->den[i] * c->y[j - 1 - i]);
+            if (t > 0) { p += t; }
+            else { n += t; }
+        }
+    }
+    *P = p;
+    *N = n;
+}
+static int cx_ok(cx_t *c, unsigned j, int p)
+{
+    i128 const lim = (i128)1 << p;
+    cx_terms(c, j, 0, &c->P[j], &c->N[j]);
+    c->y[j] = c->P[j] + c->N[j];
+    return cx_abs(c->x[j]) <= lim && c->P[j] <= lim && -c->N[j] <= lim;
+}
+static int cx_below_half_ulp(cx_t const *c, unsigned j, int p)
+{
+    /* P + |N| <= 2^(p+1): only |y| = 1 can satisfy it (the test on |y| also keeps the shift inside __int128) */
+    return c->y[j] != 0 && cx_abs(c->y[j]) < 4 && (cx_abs(c->y[j]) << p) < c->P[j] - c->N[j];
+}
+static void cx_solve(vf_rng *r, cx_t *c, unsigned j)
+{
+    i128 P, N, rest, d;
+    int a0 = abs(c->num[0]), t;
+    cx_terms(c, j, 1, &P, &N);
+    rest = P + N;
+    d = vf_chance(r, 5, 8) ? 1 : vf_chance(r, 1, 2) ? (i128)vf_range(r, 2, 3) : (i128)vf_range(r, 4, 8);
+    if (vf_chance(r, 1, 2)) { d = -d; }
+    for (t = 0; t < a0 && (d - rest) % a0 != 0; ++t) { d += d > 0 ? 1 : -1; } /* a0 consecutive values: one is divisible */
+    c->x[j] = (d - rest) / c->num[0];
+}
+static int cx_gen(vf_rng *r, cx_t *c, int p)
+{
+    int const sb = p >= 53 ? 12 : 3, nb = p >= 53 ? 8 : 1; /* shape amplitude 2^sb, perturbation amplitude 2^nb */
+    i128 const half = (i128)1 << (p - 1);
+    i128 xs[CX_MAXL], P0, N0, M0, Pt, m;
+    unsigned i, j, more;
+    int noisy = (int)vf_below(r, 2), cls = (int)vf_below(r, 4);
+    memset(c, 0, sizeof *c);
+    if (vf_chance(r, 1, 8))
+    { /* the simplest instance, an accumulator: y[k] = x[k] + y[k-1];  x = A, d - A */
+        c->nn = c->nd = 1;
+        c->num[0] = 1;
+        c->den[0] = -1;
+    }
+    else
+    {
+        c->nn = 1 + (unsigned)vf_below(r, 4);
+        c->nd = 1 + (unsigned)vf_below(r, 3);
+        c->num[0] = vf_chance(r, 3, 4) ? 1 : (int)vf_range(r, 2, 3);
+        if (vf_chance(r, 1, 2)) { c->num[0] = -c->num[0]; }
+        for (i = 1; i < c->nn; ++i) { c->num[i] = (int)vf_range(r, -3, 3); }
+        for (i = 0; i < c->nd; ++i) { c->den[i] = (int)vf_range(r, -3, 3); }
+    }
+    c->kc = 1 + (unsigned)vf_below(r, 6);
+    for (j = 0; j < c->kc; ++j)
+    {
+        i128 A = (i128)1 << sb;
+        xs[j] = cls == 0 ? (j == 0 ? A : 0) : cls == 1 ? A : (i128)vf_range(r, -(int64_t)A, (int64_t)A);
+        c->x[j] = xs[j];
+        (void)cx_ok(c, j, 120); /* shape: far below any limit, fills y */
+    }
+    cx_terms(c, c->kc, 1, &P0, &N0);
+    M0 = P0 > -N0 ? P0 : -N0;
+    if (M0 == 0) { return 0; }
+    switch (vf_below(r, 5))
+    {
+    case 0: Pt = half + 1 + (i128)vf_below(r, 1024); break; /* sum|terms| just above 2^p */
+    case 1: Pt = 2 * half - (i128)vf_below(r, 1024); break; /* just below the exactness limit */
+    default: Pt = half + 1 + (i128)vf_below(r, (uint64_t)1 << (p > 60 ? 60 : p - 1)) * (p > 60 ? 8 : 1); break;
+    }
+    m = Pt < half + 2048 ? (Pt + M0 - 1) / M0 : Pt / M0; /* lower edge: round up, m*M0 in [Pt, Pt+M0); otherwise down, m*M0 in (Pt-M0, Pt] */
+    if (m == 0) { return 0; }
+    for (j = 0; j < c->kc; ++j)
+    {
+        c->x[j] = m * xs[j] + (noisy ? (i128)vf_range(r, -(1 << nb), 1 << nb) : 0);
+        if (!cx_ok(c, j, p)) { return 0; }
+    }
+    cx_solve(r, c, c->kc);
+    if (!cx_ok(c, c->kc, p)) { return 0; }
+    c->L = c->kc + 1;
+    more = 1 + (unsigned)vf_below(r, 4);
+    for (j = c->kc + 1; j <= c->kc + more && j < CX_MAXL; ++j)
+    {
+        switch (vf_below(r, 6))
+        {
+        case 0: case 1: case 2: cx_solve(r, c, j); break;
+        case 3: c->x[j] = (i128)vf_range(r, -(4 << nb), 4 << nb); break;
+        case 4: c->x[j] = c->x[j - 1]; break;
+        default: c->x[j] = -c->x[j - 1]; break;
+        }
+        if (!cx_ok(c, j, p)) { break; }
+        c->L = j + 1;
+    }
+    return 1;
+}
+static unsigned cx_rerun(cx_t *c, i128 const *x, unsigned L, int p)
+{
+    unsigned j;
+    for (j = 0; j < L; ++j)
+    {
+        c->x[j] = x[j];
+        if (!cx_ok(c, j, p)) { break; }
+    }
+    return j;
+}
+/* v * 2^e in the working type: |v| <= 2^64 is exact in long double (64-bit significand), ldexpl is exact, the final
+   conversion is exact because v has at most p significant bits and the exponent is in range */
+static a_real cx_real(i128 v, int e) { return (a_real)ldexpl((long double)v, e); }
+
+/* runs the library on the model's inputs (garbage-filled exact-size lines); returns 0 after a violation */
+static int cx_run(cx_t const *c, unsigned L, int e, a_real *y, char const *what)
+{
+    a_real *num = garbage(c->nn), *den = garbage(c->nd), *in = garbage(c->nn), *out = garbage(c->nd);
+    a_tf tf;
+    unsigned i, k;
+    int ok = 1, seen = 0;
+    for (i = 0; i < c->nn; ++i) { num[i] = (a_real)c->num[i]; }
+    for (i = 0; i < c->nd; ++i) { den[i] = (a_real)c->den[i]; }
+    a_tf_init(&tf, c->nn, num, in, c->nd, den, out);
+    for (k = 0; k < L && ok; ++k)
+    {
+        a_real x = cx_real(c->x[k], e), ref = cx_real(c->y[k], e);
+        if (k < 8) { vf_log("tf[" W "] %s a_tf_iter(%La)", what, (long double)x); }
+        y[k] = a_tf_iter(&tf, x);
+        ++vf.evals;
+        if (c->y[k] != 0 && (cx_abs(c->y[k]) << (CX_P - 13)) < c->P[k] - c->N[k]) { seen = 1; } /* cancellation by more than p-13 bits so far */
+        if (!(y[k] == ref))
+        {
+            vf_viol(seen ? "tf_iter/exact-cancellation-result-not-exact/" W : "tf_iter/output-ne-difference-equation/exact/" W,
+                    "%s, step %u of %u (num_n=%u den_n=%u num[0]=%d den[0]=%d scale 2^%d): a_tf_iter returned %La, the exact integer recurrence gives %La = %lld grid units; "
+                    "positive terms sum to %Lg, negative terms to %Lg grid units (every subset sum is an integer of magnitude <= 2^%d: every summation order is exact)",
+                    what, k, L, c->nn, c->nd, c->num[0], c->den[0], e, (long double)y[k], (long double)ref, (long long)c->y[k], (long double)c->P[k], (long double)c->N[k], CX_P);
+            ok = 0;
+        }
+    }
+    free(num); free(den); free(in); free(out);
+    return ok;
+}
+
+static void cancel_case(vf_rng *r)
+{
+    static int const SCALES[] = {0, 0, -40, 60, -90, 200, -900, 8000, -16000};
+    int const p = CX_P, elo = A_REAL_MIN_EXP - 1, ehi = A_REAL_MAX_EXP - 1 - p - 3; /* grid unit 2^e >= A_REAL_MIN (normal), 2^(e+p+3) finite */
+    cx_t c, cv, cw;
+    a_real yu[CX_MAXL], yv[CX_MAXL], yw[CX_MAXL];
+    static int sampled;
+    unsigned k, L, tries, hits = 0;
+    int e;
+    for (tries = 0; tries < 8 && !cx_gen(r, &c, p); ++tries) { VF_COUNT("w-tf-exact-cancellation-draw-rejected"); }
+    if (tries == 8) { VF_COUNT("w-tf-exact-cancellation-no-history"); return; }
+    e = vf_chance(r, 1, 4) ? (int)vf_range(r, elo, ehi) : vf_chance(r, 1, 4) ? (vf_chance(r, 1, 2) ? elo : ehi) : SCALES[vf_below(r, sizeof SCALES / sizeof *SCALES)];
+    if (e < elo || e > ehi) { e = (int)vf_range(r, elo, ehi); } /* scale outside this type's range: a random admissible one */
+    L = c.L;
+    for (k = 0; k < L; ++k) { hits += (unsigned)cx_below_half_ulp(&c, k, p); }
+    vf_log("tf[" W "] exact cancellation: num_n=%u den_n=%u, %u steps, first solved step %u, scale 2^%d", c.nn, c.nd, L, c.kc, e);
+    VF_ADD("w-tf-exact-cancellation-bitwise", L);
+    VF_ADD("w-tf-exact-cancellation-below-half-ulp-of-term-sum", hits);
+    if (!cx_run(&c, L, e, yu, "run u")) { return; }
+    vf_distinct(vf_hash64(vf_hash64(13, c.nn), c.nd));
+    {
+        /* superposition w = a*u + b*v with v small or v = -u + small, when the three runs stay exact (see h_filter.c) */
+        i128 xv[CX_MAXL], xw[CX_MAXL];
+        int a = vf_chance(r, 1, 2) ? 1 : -1, b, kind = (int)vf_below(r, 2), sm = p >= 53 ? 1024 : 4;
+        unsigned Lv, Lw, L2;
+        if (kind == 0) { do { b = (int)vf_range(r, -4, 4); } while (b == 0); }
+        else { b = a; }
+        for (k = 0; k < L; ++k)
+        {
+            i128 small = vf_chance(r, 1, 3) ? 0 : (i128)vf_range(r, -sm, sm);
+            xv[k] = kind == 0 ? small : -c.x[k] + small;
+            xw[k] = a * c.x[k] + b * xv[k];
+        }
+        cv = c;
+        cw = c;
+        Lv = cx_rerun(&cv, xv, L, p);
+        Lw = cx_rerun(&cw, xw, L, p);
+        L2 = Lv < Lw ? Lv : Lw;
+        if (L2 <= c.kc) { VF_COUNT("w-tf-exact-cancellation-superposition-not-exact-skipped"); return; }
+        for (hits = 0, k = 0; k < L2; ++k) { hits += (unsigned)cx_below_half_ulp(&cv, k, p) + (unsigned)cx_below_half_ulp(&cw, k, p); }
+        VF_ADD("w-tf-exact-cancellation-bitwise", 2 * L2);
+        VF_ADD("w-tf-exact-cancellation-below-half-ulp-of-term-sum", hits);
+        if (!cx_run(&cv, L2, e, yv, "run v") || !cx_run(&cw, L2, e, yw, "run a*u+b*v")) { return; }
+        VF_ADD("w-tf-exact-cancellation-superposition", L2);
+        for (k = 0; k < L2; ++k)
+        {
+            q_t rhs = (q_t)a * (q_t)yu[k] + (q_t)b * (q_t)yv[k]; /* binary128: integers of at most p+3 bits times 2^e, exact */
+            if (!((q_t)yw[k] == rhs))
+            {
+                vf_viol("tf/superposition/exact-cancellation/" W, "step %u (num_n=%u den_n=%u): resp(%d*u+%d*v)=%La but %d*resp(u)+%d*resp(v)=%La (resp(u)=%La resp(v)=%La)", k, c.nn, c.nd, a, b,
+                        (long double)yw[k], a, b, (long double)rhs, (long double)yu[k], (long double)yv[k]);
+                return;
+            }
+        }
+    }
+    if (vf_want_sample() && !sampled && c.nn >= 2 && cx_below_half_ulp(&c, c.kc, p))
+    {
+        sampled = 1, vf_sample("tf[" W "] exact cancellation num_n=%u den_n=%u scale 2^%d: at step %u positive terms %Lg, negative terms %Lg grid units, output %lld grid units returned exactly (%La)", c.nn, c.nd, e,
+                  c.kc, (long double)c.P[c.kc], (long double)c.N[c.kc], (long long)c.y[c.kc], (long double)yu[c.kc]);
+    }
+}
+
 static void rc_case(vf_rng *r)
 {
     a_real fc = (a_real)vf_logu(r, -6, 6), ts = (a_real)vf_logu(r, -6, 2);
@@ -172,6 +413,7 @@ static void rc_case(vf_rng *r)
 
 static void vf_case(uint64_t c, vf_rng *r)
 {
-    if (c % 5 == 4) { rc_case(r); }
+    if (c >= vf_nbase(vf.tier)) { cancel_case(r); }
+    else if (c % 5 == 4) { rc_case(r); }
     else { tf_case(c, r); }
 }
